@@ -27,6 +27,11 @@ def make(rng, sid):
     _, u, e, name, sfx = p["call"]
     s = Scenario(sid, {"p": p, "tree": t})
     t.emit(s)
+    if u and e and u.startswith(b"/") and e.startswith(b"/") and len(u) > 1 and len(e) > 1 and rng.random() < 0.35:
+        # the two directories given as relative names (after chdir to /): all entry points must still agree
+        s.add("CD", h(b"/"))
+        u, e = u[1:], e[1:]
+        s.meta["relative"] = True
     if p["global_confdirs"] is not None:
         s.add("G", "confdirs", *[h(x) for x in p["global_confdirs"]])
     args = [h(u), h(e), h(name), h(sfx), h(b"="), h(b"#")]
@@ -86,8 +91,15 @@ def oracle(s, lines):
     tv = trees.TreeView(t)
     main, drops = trees.consulted(tv, p["dirs"], p["name"], p["dsfx"], p["postfixes"])
     files = ([main] if main else []) + drops
-    if [r.path for r in h1] != files:
-        return "history paths %r, consulted files %r" % ([r.path for r in h1], files)
+
+    def stored(f):
+        # a relative name is stored as what realpath() makes of it: normalised, a symbolic link replaced by its target
+        if not s.meta.get("relative"):
+            return f
+        n = tv.get(f)
+        return trees.norm(n[1]) if n and n[0] == "link" else trees.norm(f)
+    if [r.path for r in h1] != [stored(f) for f in files]:
+        return "history paths %r, consulted files %r" % ([r.path for r in h1], [stored(f) for f in files])
     for r, f in zip(h1, files):
         want = trees.parse_simple(tv.content(f) or b"")
         if trees.raw_map(r) != {k: v for k, v in want.items()}:
